@@ -152,27 +152,27 @@ theorem est_searchLoop (mark : Nat) (backup : Text) (backupPos : Nat) :
     have h2 : LogInv S U cfg s2 := h2a.inv
     show wp (lowerMark mark) _ _ s2
     rw [wp_lowerMark_top]
-    have hds : ∀ (mark : Nat) (sb : Text) (hi : Nat) (d : Dir),
+    have hds : ∀ (mark : Nat) (sb : Text) (hi hi0 : Nat) (d : Dir),
         wp (match (memHist cfg).search sb hi d with
             | some (idx, entry, pos) => do
               lb S U (LB.update S U entry pos)
               searchLoop S U cfg mark backup backupPos fuel sb idx d true
-            | none => searchLoop S U cfg mark backup backupPos fuel sb hi d false)
+            | none => searchLoop S U cfg mark backup backupPos fuel sb hi0 d false)
           (fun _ s' => Sh S U cfg s') (fun _ s' => LogOK S U cfg s') s2 := by
-      intro mark sb hi d
+      intro mark sb hi hi0 d
       cases (memHist cfg).search sb hi d with
       | none => exact (ih _ _ _ _ _).h s2 h2
       | some r =>
         obtain ⟨idx, entry, pos⟩ := r
         exact (Est.bind_keeps (lk_lb _) fun _ => ih _ _ _ _ _).h s2 h2
     split
-    · exact hds _ _ _ _
+    · exact hds _ _ _ _ _
     · exact (ih _ _ _ _ _).h s2 h2
     · split
-      · exact hds _ _ _ _
+      · exact hds _ _ _ _ _
       · exact (ih _ _ _ _ _).h s2 h2
     · split
-      · exact hds _ _ _ _
+      · exact hds _ _ _ _ _
       · exact (ih _ _ _ _ _).h s2 h2
     · exact (Est.bind_keeps (lk_lb _) fun _ => Est.bind_pres (est_refreshLine hc hprompt) fun _ =>
         Pres.bind (Pres.of_keeps (sk_truncateChanges _)) fun _ => Pres.pure _).h s2 h2
